@@ -92,7 +92,31 @@ def expected_grid(convention, kind_obj):
     return dims, sizes
 
 
-def body_roundtrip(ctx, conv, kind, extras, perm, linear_name, wind_by, coords=False):
+def _short_lived_datasets():
+    """Other datasets used and dropped earlier in the same process (a loop over files): nothing they leave behind -
+    module-level caches, addresses that are used again - may reach the dataset that is checked next."""
+    import gc
+    from emsarray.conventions.grid import CFGrid1D
+    from emsarray.conventions.ugrid import UGrid
+    for rep in range(3):
+        for shape in ((3, 2), (4, 6), (6, 4), (2, 7), (5, 5), (1, 12)):
+            d = builders.cf1d(*shape, ydim='lat', xdim='lon')
+            c = CFGrid1D(d)
+            flat = c.ravel(xarray.DataArray(numpy.zeros(shape), dims=['lat', 'lon']))
+            c.wind(flat)
+            del d, c, flat
+            gc.collect()
+        for mesh in ('tq', 'fan'):
+            d = builders.ugrid(mesh, with_edges=True)
+            c = UGrid(d)
+            c.wind(xarray.DataArray(numpy.zeros(len(builders.MESHES[mesh][1])), dims=['index']))
+            del d, c
+            gc.collect()
+
+
+def body_roundtrip(ctx, conv, kind, extras, perm, linear_name, wind_by, coords=False, after_others=False):
+    if after_others:
+        _short_lived_datasets()
     ds, convention = make_convention(conv)
     kind_obj = next(k for k in convention.grid_kinds if k.value == kind)
     gdims, gsizes = expected_grid(convention, kind_obj)
@@ -341,6 +365,11 @@ def cases(tier):
                     if ne >= 1 and (not q or kind in ('face', 'node')):
                         yield Case(f'windfirst:{conv}:{kind}:x{ne}:pos{pos}:name:column-major', body_wind_first,
                                    dict(conv=conv, kind=kind, extras=extras, position=pos, by='name', fortran=True))
+        # after a series of other datasets has been flattened and wound in the same process
+        for kind in kinds[:2]:
+            ngrid = 1 if conv.startswith('ugrid') else 2
+            yield Case(f'roundtrip:{conv}:{kind}:x1:after-other-datasets', body_roundtrip,
+                       dict(conv=conv, kind=kind, extras=EXTRA[:1], perm=tuple(range(ngrid + 1)), linear_name=None, wind_by='default', after_others=True))
         # another dimension that happens to be as long as the flattened grid (twelve months on a 3x4 grid)
         for kind in kinds[:2]:
             ngrid = 1 if conv.startswith('ugrid') else 2
